@@ -36,6 +36,13 @@ namespace ip {
 	{}
 
 	template<typename Protocol>
+	basic_resolver<Protocol>::~basic_resolver()
+	{
+		// lookups that are still pending complete with operation_aborted
+		cancel();
+	}
+
+	template<typename Protocol>
 	basic_resolver<Protocol>::basic_resolver(basic_resolver<Protocol>&&) noexcept = default;
 
 	template<typename Protocol>
